@@ -1005,6 +1005,10 @@ func c01r6(c *Ctx) {
 					continue
 				}
 				assume := factsOnPathsAvoiding(routine, cd.call, cut)
+				if name == "ESDTTransfer" {
+					// a user's own transaction continues to the destination shard by itself: only a contract's call needs the shipment
+					assume = append(assume, Fact{Atom: "call:vmcommon.IsSmartContractAddress(" + x.caller + ")", Pos: true})
+				}
 				if shipsUnder(c.P, cd.sub, assume) {
 					okVia = true
 					c.Note("%s: on paths without a local credit the emitter %s ships, given %s", name, cd.sub.Fn.Name(), strings.Join(factStrings(assume), " ; "))
